@@ -235,6 +235,9 @@ FOCUSED = [
     ('directives', ['#', 'a', ':', '+', ' ', '{'], {}, ['colon_operator', 'plus_operator'], 5, 6),
     # the byte-order mark is skipped on line 1 only: every position of it relative to tokens, strings, line ends and cuts
     ('bom', ['\ufeff', 'a', ' ', '"', '\n', '{'], {}, ['string_bracket'], 5, 6),
+    # the remaining punctuation: operator tokens (= , }) and the characters no token may start with (' ;), which end a bare
+    # word or a directive and then raise - the error (type, message, line) must not depend on the delivery either
+    ('punctuation', ["'", ';', '=', ',', '}', 'a', '#', '\n'], {}, ['string_bracket'], 5, 6),
 ]
 
 
@@ -301,7 +304,7 @@ def gen_doc(rng) -> str:
         i = rng.randrange(len(text))
         r = rng.random()
         if r < 0.3:
-            text = text[:i] + rng.choice(ALPHABET + ['\t', 'é', '\x00', '﻿', ' ']) + text[i + 1:]
+            text = text[:i] + rng.choice(ALPHABET + ['\t', 'é', '\x00', '﻿', ' ', "'", ';', '=', ',', '}', '|', '!']) + text[i + 1:]
         elif r < 0.5:
             text = text[:i]
         elif r < 0.7:
